@@ -367,6 +367,8 @@ def feature_problems(rd, fams, seed, tier):
             ent += gen_features.inactive_family()
         elif fam == 'unify':
             ent += gen_features.unify_family()
+        elif fam == 'stricttie':
+            ent += gen_features.strict_tie_family()
     return write_feature_problems(rd, ent), {n: s_ for n, p, s_ in ent}
 
 
